@@ -322,7 +322,7 @@ def impl_book(backend: str, tree: str, leaves: List[Tuple[str, str]]) -> Dict[st
 # --------------------------------------------------------------------------------------------
 # tie T: regenerate the Lean tables from the source
 # --------------------------------------------------------------------------------------------
-S_TREE, S_COL, S_VAR = "", "", ""
+S_TREE, S_COL, S_VAR = "\ue000", "\ue001", "\ue002"  # private-use sentinels for probing the emitters
 
 
 def probe_escape_table() -> Tuple[List[Tuple[int, List[int]]], str]:
